@@ -115,6 +115,7 @@ def noself_edge_sets(n):
         yield [p for k, p in enumerate(pairs) if mask >> k & 1]
 
 
+@common.job
 def _job(job):
     kinds, n, lo, hi, rev = job
     stats = {}
